@@ -36,10 +36,6 @@ var pendingOrder []string
 func add(out *res.Result, f res.Finding) {
 	k := f.Kind + "|" + f.Op + "|" + f.Key
 	out.Hit("finding-class:" + k)
-	if dbg := os.Getenv("WRH_C19_DEBUG"); dbg != "" && strings.Contains(k, dbg) && len(pending[k]) >= 2 && len(pending[k+"#dbg"]) < 40 {
-		pending[k+"#dbg"] = append(pending[k+"#dbg"], f)
-		fmt.Fprintf(os.Stderr, "DBG %s\n  in=%v\n  impl=%v model=%v\n", k, f.Input, f.Impl, f.Model)
-	}
 	if _, ok := pending[k]; !ok {
 		pendingOrder = append(pendingOrder, k)
 	}
